@@ -16,6 +16,8 @@ pub struct ArtInput {
     pub d: SDesc,
     pub unjudged: BTreeSet<u32>,
     pub source: Option<String>,
+    /// the registry contains an instantiation with a parameter coincidence (DESIGN.md 3.3)
+    pub has_noncf: bool,
 }
 
 /// Settings under which the emitted module is expected to compile: codec derives, real paths.
@@ -90,7 +92,10 @@ pub fn run_batch(ctx: &mut Ctx, prop: &str, inputs: Vec<ArtInput>, slot: usize, 
         let codes: BTreeSet<String> = errs.iter().map(|e| rt::error_code(e)).collect();
         ctx.count("artifact_cases_rejected_by_rustc", 1);
         let hidden_box = inp.source.as_deref().map(|s| s.contains("pub type Boxed")).unwrap_or(false);
-        let key = if errs.iter().any(|e| e.contains("is only used recursively")) {
+        let key = if inp.has_noncf {
+            // mis-recovered generics (known finding of C03) make the module ill-typed
+            "rustc:coincidence".to_string()
+        } else if errs.iter().any(|e| e.contains("is only used recursively")) {
             "rustc:param-only-used-recursively".to_string()
         } else if codes.contains("E0072") && hidden_box {
             "rustc:E0072:alias-hidden-box".to_string()
@@ -101,7 +106,7 @@ pub fn run_batch(ctx: &mut Ctx, prop: &str, inputs: Vec<ArtInput>, slot: usize, 
             ctx.violation(
                 format!("C02:{key}"),
                 format!("rustc rejects the module generated for {}: {}", inp.label, errs.iter().take(3).cloned().collect::<Vec<_>>().join(" | ")),
-                json!({"kind": "registry", "via": "rustc", "registry": crate::reg::to_json(&inp.reg), "sdesc": serde_json::to_value(&inp.d).unwrap(), "source": inp.source, "alias_hidden_box": hidden_box}),
+                json!({"kind": "registry", "via": "rustc", "registry": crate::reg::to_json(&inp.reg), "sdesc": serde_json::to_value(&inp.d).unwrap(), "source": inp.source, "alias_hidden_box": hidden_box, "has_noncf": inp.has_noncf}),
             );
         } else {
             ctx.count(&format!("artifact_rustc[{key}]"), 1);
